@@ -77,7 +77,7 @@ def trusted_constraint(b, f, con, dirty=()):
         # a loader's driver loop (formats::parse_with_parser, and the Atascii / Seq loaders' own loops): its local caret is
         # created by Caret::default() and only ever written by the text parsers' print_char (C09)
         for l in range(b.argc + 1, len(b.locals)):
-            if b.lname(l) == "caret" and b.tys(l) == "caret::Caret":
+            if b.lname(l) and b.tys(l) == "caret::Caret":
                 if a[0] == "n" and a[1] is None and bb[0] == "n" and bb[1] is not None and bb[1][0] == "v" \
                         and bb[1][1] == l and bb[1][2] in (("pos", "x"), ("pos", "y")) and a[2] - bb[2] <= c:
                     return "T5"
@@ -86,7 +86,7 @@ def trusted_constraint(b, f, con, dirty=()):
         if a[0] == "n" and a[1] is None and a[2] == 0 and c == -1:
             return "T2"
         if a[0] == "n" and a[1] is not None and a[1][0] == "v" and not a[1][2] and 1 <= a[1][1] <= b.argc \
-                and b.lname(a[1][1]) in ("current_layer", "layer") and a[2] == 0 and c == -1:
+                and (b.lname(a[1][1]) in ("current_layer", "layer") or [i for i in range(1, b.argc + 1) if b.tys(i) == "usize"] == [a[1][1]]) and a[2] == 0 and c == -1:
             return "T1"
     # 0 <= caret.pos.{x,y}  (T5: guaranteed by C09's clamp rule, which checks every cursor store)
     if cp is not None and a[0] == "n" and a[1] is None and bb[0] == "n" and bb[1] is not None and bb[1][0] == "v" \
